@@ -77,8 +77,15 @@ pub fn parse_xref_stream_and_trailer(lexer: &mut Lexer, resolve: &impl Resolve) 
         xref_stream.info.clone()
     };
 
+    // decoded here and not through the stream cache, which goes by the object number: an update may give its
+    // cross-reference stream (or, later, any other stream) the number of an older section's stream
+    let raw = t!(xref_stream.raw_data(resolve));
     let xref_stream = t!(Stream::<XRefInfo>::from_primitive(Primitive::Stream(xref_stream), resolve));
-    let mut data_left = &*t!(xref_stream.data(resolve));
+    let mut data = raw.to_vec();
+    for filter in &xref_stream.info.filters {
+        data = t!(crate::enc::decode(&data, filter), filter);
+    }
+    let mut data_left = &*data;
     
     let width = &xref_stream.w;
 
